@@ -11,40 +11,42 @@ import ClientGoVerif.Model.Validate
 namespace CGV.Props.C10
 open CGV CGV.Retry
 
-/-- The lexicographic measure (remaining back-off steps, Σ remaining attempts + 2·hint refills left) strictly decreases
+/-- The lexicographic measure (2·remaining back-off steps + [no back-off owed], Σ remaining attempts + 2·free leader-hint
+    redirects left + 2·[a refill is possible]) strictly decreases
     on every allowed non-final step of every accepted run. -/
 theorem rank_decreases (c : Cfg) (es : List Ev) (s : State) (e : Ev)
     (hrun : run (init c) es = some s) (hal : stepAllowed s e = true) (hnf : isFinal e = false) :
     Prod.Lex (· < ·) (· < ·) (rank (step s e)) (rank s) :=
   rank_decreases_inv s e (inv_run es _ _ (inv_init c) hrun) hal hnf
 
-/-- Every accepted run sends at most `#replicas · maxReplicaAttempt + hints` RPCs and has at most
-    `#replicas · maxReplicaAttempt + 2·hints + ⌈budget / minStep⌉ + ⌈max(excludedLimit, budget) / minStep⌉ + 1` events. -/
+/-- TERMINATION, full statement (no exclusion of leader-hint cycles): every accepted run sends at most
+    `#replicas·maxReplicaAttempt + #replicas + 1 + (number of back-offs in the run)` RPCs — there is no unbounded run without
+    back-off — and the back-offs are bounded by the budget: `⌈budget/minStep⌉ + ⌈max(excludedLimit, budget)/minStep⌉`; hence
+    explicit bounds on RPCs and on all events. -/
 theorem attempts_bounded (c : Cfg) (es : List Ev) (s : State) (hrun : run (init c) es = some s) :
-    countSends es ≤ c.n * maxAtt + c.hints ∧
-    es.length ≤ c.n * maxAtt + 2 * c.hints + (ceilDiv c.maxSleep minStep + ceilDiv (max exclLimitMax c.maxSleep) minStep) + 1 := by
+    countSends es ≤ c.n * maxAtt + c.n + 1 + (es.filter isBackoff).length ∧
+    (es.filter isBackoff).length ≤ backoffBound c ∧
+    countSends es ≤ sendBound c ∧ es.length ≤ eventBound c := by
   have hi := inv_init c
-  have h1 := run_count phiSend isSend phiSend_step es _ _ hi hrun
-  have h2 := run_count (fun s => s.credit) isBump credit_step es _ _ hi hrun
+  have h1 := run_count2 phiSend isSend isBackoff phiSend_step es _ _ hi hrun
+  have h2 := run_count2 bumpOk isBump isSend bumpOk_step es _ _ hi hrun
   have h3 := run_count rank1 isBackoff rank1_step es _ _ hi hrun
   have h4 := run_count phiFin isFinal phiFin_step es _ _ hi hrun
-  have e1 : phiSend (init c) = c.n * maxAtt + c.hints := by simp [phiSend, init, remAtt_replicate]
-  have e2 : (init c).credit = c.hints := rfl
+  have e1 : phiSend (init c) = c.n * maxAtt + c.n + 1 := by
+    simp [phiSend, init, remAtt_replicate, freeLeft, bumpOk, owedFlag]
+  have e2 : bumpOk (init c) = 0 := rfl
   have e3 := rank1_init c
   have e4 : phiFin (init c) = 1 := rfl
   have hl := length_split es
-  unfold countSends
-  unfold backoffBound at e3
-  constructor
-  · omega
-  · omega
+  unfold countSends sendBound eventBound
+  refine ⟨by omega, by omega, by omega, by omega⟩
 
 /-- the same bound through the executable oracle the driver evaluates -/
 theorem bounded_oracle (c : Cfg) (es : List Ev) (s : State) (hrun : run (init c) es = some s) :
     propBounded c es = true := by
   have := attempts_bounded c es s hrun
-  unfold propBounded sendBound eventBound backoffBound
-  exact (Bool.and_eq_true _ _).mpr ⟨decide_eq_true (by omega), decide_eq_true (by omega)⟩
+  unfold propBounded
+  exact (Bool.and_eq_true _ _).mpr ⟨decide_eq_true this.2.2.1, decide_eq_true this.2.2.2⟩
 
 /-- An ok result directly follows an RPC that a store answered ok and carries that RPC's response object; a store
     region-error result carries the last RPC's response object and that RPC was answered with a region error
@@ -103,8 +105,8 @@ theorem ok_result_follows_ok_rpc (c : Cfg) (pre : List Ev) (b : Bool) (s : State
     NotLeader without leader, MaxTimestampNotSynced, DiskFull, …: before ANY further RPC; ServerIsBusy: before the next RPC
     to the SAME store) no such RPC follows before a back-off of that config (`propBackoffDiscipline`) -/
 theorem backoff_discipline (c : Cfg) (es : List Ev) (s : State) (hrun : run (init c) es = some s) :
-    propBackoffDiscipline c.shortRead es = true :=
-  discipline_run c.shortRead es (init c) s rfl hrun
+    propBackoffDiscipline c.n c.shortRead es = true :=
+  discipline_run c.n c.shortRead es (init c) s rfl rfl hrun
 
 /-- no RPC of a write command is flagged replica read or stale read -/
 theorem write_never_replica_or_stale (c : Cfg) (es : List Ev) (s : State) (hrun : run (init c) es = some s) :
@@ -159,13 +161,19 @@ def demoRun : List Ev :=
    .send 2 2 false false true 0 2 .ok "ok", .result .ok true]
 
 example : (run (init cfgRead) demoRun).isSome = true := by decide
-/-- ten RPCs exhaust replica 1, a leader hint naming it refills it once (`bump`), the eleventh RPC is legal, a second
-    refill is not (the allowance `hints = 1` is used up) -/
+/-- ten RPCs exhaust replica 1, a leader hint naming it refills it once (`bump`), the eleventh RPC is legal, a refill needs a
+    leader-hint reply first -/
 def demoHint : List Ev :=
   [.send 1 1 false false false 0 0 .regionerr "stale"] ++ List.replicate 8 (.send 1 1 false false true 0 0 .regionerr "stale") ++
   [.send 1 1 false false true 0 10 (.nlhint 1) "nl1", .bump 1 9, .send 1 1 false false true 0 10 (.nlhint 1) "nl1"]
 example : (run (init cfgRead) (demoHint ++ [.result .regionStore true])).isSome = true := by decide
-example : run (init cfgRead) (demoHint ++ [.bump 1 9]) = none := by decide
+/-- leader hints pointing at each other: three redirects (one per replica) are followed at once, the fourth owes a back-off -/
+def demoCycle : List Ev :=
+  [.send 1 1 false false false 0 0 (.nlhint 2) "nl2", .send 2 2 false false true 0 0 (.nlhint 1) "nl1",
+   .send 1 1 false false true 0 0 (.nlhint 2) "nl2", .send 2 2 false false true 0 0 (.nlhint 1) "nl1"]
+example : run (init cfgRead) (demoCycle ++ [.send 1 1 false false true 0 0 (.nlhint 2) "nl2"]) = none := by decide
+example : (run (init cfgRead) (demoCycle ++ [.backoff "regionScheduling" 2, .send 1 1 false false true 0 0 (.nlhint 2) "nl2"])).isSome = true := by
+  decide
 example : run (init cfgRead) (demoHint.take 10 ++ [.send 1 1 false false true 0 0 .ok "ok"]) = none := by decide
 example : (run (init cfgBadTs) [.result .errTs false]).isSome = true := by decide
 example : (run (init cfgWrite) [.send 1 1 false false false 0 1 .rpcerr "rpcerr", .backoff "tikvRPC" 100, .result .errBudget false]).isSome = true := by
